@@ -5,6 +5,9 @@ mod alloc;
 mod boxed;
 mod linked_list;
 
+#[cfg(petrichorit_des_verif)]
+pub mod verif;
+
 pub(crate) use alloc::*;
 use linked_list::DualLinkedList;
 
@@ -226,6 +229,8 @@ impl<E> CQueue<E> {
             if min <= t1 {
                 return Some(min);
             }
+            #[cfg(petrichorit_des_verif)]
+            verif::scan_step();
             head = (head + 1) % self.n;
             t1 += self.t;
         }
@@ -250,6 +255,8 @@ impl<E> CQueue<E> {
         loop {
             // Move until full bucket is found.
             while self.buckets[self.head].is_empty() {
+                #[cfg(petrichorit_des_verif)]
+                verif::scan_step();
                 self.head = (self.head + 1) % self.n;
                 self.t0 += self.t;
                 self.t1 += self.t;
@@ -259,6 +266,8 @@ impl<E> CQueue<E> {
 
             let min = self.buckets[self.head].front_time();
             if min > self.t1 {
+                #[cfg(petrichorit_des_verif)]
+                verif::scan_step();
                 self.head = (self.head + 1) % self.n;
                 self.t0 += self.t;
                 self.t1 += self.t;
